@@ -66,7 +66,7 @@ def gen_cases(rng, tier):
         h[0] = 'run'
         # built-in steps placed before the checkpoint: on a recomputation (first run, or after the directory was removed)
         # they run again, with the same Flow object when it is re-used
-        ups = rng.sample(['validate', 'computed', 'join_self', 'set_type', 'sort', 'add_field'], rng.randint(0, 3))
+        ups = rng.sample(['validate', 'computed', 'join_self', 'set_type', 'sort', 'add_field', 'rotate', 'reverse'], rng.randint(0, 3))
         cases.append({'kind': 'history', 'history': h, 'reuse': rng.chance(0.5), 'two': rng.chance(0.4), 'ups': ups,
                       'loader': rng.chance(0.3),
                       'names': rng.pick([['one', 'two'], ['one', 'one.active'], ['x.active.y', 'two'], ['one.active', 'one']]),
@@ -82,6 +82,19 @@ def gen_cases(rng, tier):
         for h in (['run', 'run'], ['run', 'run', 'delete', 'run', 'run']):
             cases.append({'kind': 'history', 'history': h, 'reuse': False, 'two': two, 'ups': [], 'loader': False, 'names': ['one', 'two'],
                           'take2': True, 'rows': [{'a': j, 'v': enc('v%d' % j)} for j in range(5)]})
+    # rows with their keys in another order than the schema's fields, through one and two checkpoints
+    for ko in ('rotate', 'reverse'):
+        for two in (False, True):
+            cases.append({'kind': 'history', 'history': ['run', 'run', 'run'], 'reuse': False, 'two': two, 'ups': [ko], 'loader': False, 'names': ['one', 'two'],
+                          'rows': [{'a': j, 'v': enc('v%d' % j)} for j in range(3)]})
+    # a failed run (the step in front of the checkpoint raises after one row, or after the last row), then complete runs:
+    # the run after the failed one recomputes and saves, the one after that resumes (round 8)
+    for h in (['fail', 'run', 'run'], ['failend', 'run', 'run'], ['run', 'delete', 'fail', 'run', 'run'], ['fail', 'fail', 'run', 'run'],
+              ['failend', 'run', 'delete', 'run', 'run']):
+        for two in (False, True):
+            for reuse in (False, True):
+                cases.append({'kind': 'history', 'history': h, 'reuse': reuse, 'two': two, 'ups': [], 'loader': False, 'names': ['one', 'two'],
+                              'rows': [{'a': j, 'v': enc('v%d' % j)} for j in range(3)]})
     # the known sub-second loss inside a history whose steps before the checkpoint add fields (recognised as the known finding)
     cases.append({'kind': 'history', 'history': ['run', 'run'], 'reuse': True, 'two': True, 'ups': ['validate', 'add_field'], 'loader': False,
                   'names': ['one', 'two'], 'rows': [{'a': 0, 'v': enc(datetime.time(23, 28, 5))},
@@ -127,10 +140,15 @@ def type_exact_eq(a, b):
     return a == b
 
 
-def mk_flow(case, d, log):
+def mk_flow(case, d, log, switch=None):
     def up(rows):
         log.append('up')
-        yield from rows
+        for i, r in enumerate(rows):
+            if switch and switch.get('fail') == 'row' and i == 1:
+                raise RuntimeError('tripped at row 1')
+            yield r
+        if switch and switch.get('fail') == 'end':
+            raise RuntimeError('tripped at the end')
 
     def mid(rows):
         log.append('mid')
@@ -162,7 +180,9 @@ def mk_flow(case, d, log):
                  'join_self': lambda: DF.join_with_self('r', ['a'], {'a': None, 'n': {'aggregate': 'count'}}),
                  'set_type': lambda: DF.set_type('a', type='number'),
                  'sort': lambda: DF.sort_rows('{a}', reverse=True),
-                 'add_field': lambda: DF.add_field('z', 'integer', 7)}
+                 'add_field': lambda: DF.add_field('z', 'integer', 7),
+                 # rows reach the checkpoint with their keys in another order than the schema lists the fields
+                 'rotate': lambda: rotate_keys, 'reverse': lambda: reverse_keys}
     steps = [src, up] + [builtins_[u]() for u in case.get('ups', [])] + [DF.checkpoint(n1, checkpoint_path=d)]
     if case['two']:
         steps += [mid, DF.checkpoint(n2, checkpoint_path=d)]
@@ -210,9 +230,11 @@ def run_impl(case):
     d = os.path.join(scratch(), 'h_%s' % digest(case))
     shutil.rmtree(d, ignore_errors=True)
     log = []
-    flow = mk_flow(case, d, log)
+    switch = {}
+    flow = mk_flow(case, d, log, switch)
     runs = []
     for op in case['history']:
+        switch['fail'] = {'fail': 'row', 'failend': 'end'}.get(op)
         if op == 'delete':
             shutil.rmtree(d, ignore_errors=True)
             continue
@@ -221,7 +243,7 @@ def run_impl(case):
             continue
         del log[:]
         if not case['reuse']:
-            flow = mk_flow(case, d, log)
+            flow = mk_flow(case, d, log, switch)
         try:
             with quiet():
                 res, dp, _ = flow.results()
@@ -251,10 +273,17 @@ def oracle(case, out):
                     return 'stream/unstream: row %r came back as %r' % (y, x)
         return None
     runs = out['runs']
-    first = runs[0]
+    first = ([r for r in runs if 'error' not in r] or runs)[0]
     have1 = have2 = False
     ri = 0
     for op in case['history']:
+        if op in ('fail', 'failend') and not have1:
+            # the step in front of the first checkpoint raises: the run fails and saves nothing that a later run could resume from
+            r = runs[ri]
+            ri += 1
+            if 'error' not in r:
+                return 'history %r: run %d was to fail in front of the checkpoint and returned normally' % (case['history'], ri)
+            continue
         if op == 'delete':
             have1 = have2 = False
             continue
@@ -352,7 +381,7 @@ def coq_term(case, out):
             ls = clist([cstr(l[:-1]) for l in out['readlines']])
             t += ' && list_eqb str_eqb (split_lines %s) %s && str_eqb (file_text %s) %s' % (cstr(out['text']), ls, ls, cstr(out['text']))
         return t
-    if k == 'history' and not case['two'] and all('error' not in r for r in out['runs']):
+    if k == 'history' and not case['two'] and all('error' not in r for r in out['runs']) and not any(o.startswith('fail') for o in case['history']):
         h = clist(['HRun' if o == 'run' else 'HDelete' for o in case['history']])
         obs = clist([cbool('up' in r['log']) for r in out['runs']])
         return ('list_eqb Bool.eqb (map snd (history unit unit (fun _ => [1]) (fun _ => Some tt) (fun _ => [1]) (fun _ => Some tt) (fun _ => 1%%nat) '
